@@ -48,9 +48,9 @@ EXHAUSTIVE = {"quick": False, "thorough": False}
 # "judge_fixed_append" / "judge_fixed" follow notes/C04-section-append.proposal.patch (a PARTIAL repair: class 5 stays a finding).
 import os as _os
 
-JUDGE = _os.environ.get("VERIF_C04_JUDGE", "judge_fixed_section_envsub")  # /repo e3568f9 and 3663e43 landed
+JUDGE = _os.environ.get("VERIF_C04_JUDGE", "judge_fixed_section_envsub_leaf")  # /repo e3568f9 and 3663e43 landed
 FINDING_CLASSES = {1: "envcfg-append-ignores-earlier-list", 3: "subcommand-variable-loses-to-earlier-parent-source",
-                   5: "section-append-uses-parent-list"}  # 4 and 6 repaired in /repo
+                   5: "section-append-uses-parent-list"}  # 4 repaired in /repo e3568f9; 6 repaired by 3663e43 + 5fa071e
 
 LEAVES = ["a", "b", "l", "m", "d", "e", "g.x", "g.l", "g.d", "g.h.y", "g.h.l", "g.h.d", "k.x", "k.l", "k.d"]
 ITEMS = ["p", "q", "r", "s"]
